@@ -277,7 +277,7 @@ macro_rules! any_slot {
 }
 
 #[kani::proof]
-#[kani::unwind(26)]
+#[kani::unwind(16)]
 fn c14_master_transmit_0slots() {
     let fdl = any_fdl();
     let mut storage: [crate::dp::PeripheralStorage; 0] = [];
@@ -287,7 +287,7 @@ fn c14_master_transmit_0slots() {
 }
 
 #[kani::proof]
-#[kani::unwind(26)]
+#[kani::unwind(16)]
 fn c14_master_transmit_2slots_q() {
     let fdl = any_fdl();
     let user: [u8; 1] = kani::any();
@@ -301,7 +301,7 @@ fn c14_master_transmit_2slots_q() {
 }
 
 #[kani::proof]
-#[kani::unwind(26)]
+#[kani::unwind(16)]
 fn c14_master_transmit_3slots_t() {
     let fdl = any_fdl();
     let user: [u8; 1] = kani::any();
@@ -317,4 +317,40 @@ fn c14_master_transmit_3slots_t() {
     let mut m = DpMaster::new(&mut storage[..]);
     m.state = any_master_state(3);
     check_master_transmit(&mut m, &fdl);
+}
+
+/// The empty DP master (no peripheral configured) ends its turn.  Small dedicated harness: the
+/// slot loop's bound is derived (it must end after at most two passes for zero slots), so an
+/// unwinding failure here is a hang.
+#[kani::proof]
+#[kani::unwind(4)]
+fn c14_master_empty_terminates() {
+    let fdl = any_fdl();
+    let mut storage: [crate::dp::PeripheralStorage; 0] = [];
+    let mut m = DpMaster::new(&mut storage[..]);
+    m.state = any_master_state(0);
+    let mut buf = [0u8; 24];
+    let now = crate::time::Instant::from_micros(kani::any::<u32>());
+    // high-priority-only turn: global control is never due, the slot loop is entered directly
+    let res = m.transmit_telegram(now, &fdl, TelegramTx::new(&mut buf), HighPrioOnly::Yes);
+    assert!(res.is_none(), "C14/turn: a master without peripherals has nothing to send");
+    if m.state.operating_state != OperatingState::Stop {
+        assert!(m.state.cycle_state == CycleState::DataExchange(0), "C14/cycle: the next cycle starts at the first slot");
+    }
+    kani::cover!(m.state.last_events.cycle_completed, "cover: empty cycle completes");
+}
+
+/// Concrete native witness for the hang the harness above reports as an unwinding failure
+/// (Kani produces no playback test for unwinding assertions).  Run by check.py under a
+/// wall-clock watchdog: not returning is the reproduction.
+#[cfg(test)]
+#[test]
+fn hang_c14_master_empty() {
+    let fdl = crate::fdl::FdlActiveStation::new(Default::default());
+    let mut storage: [crate::dp::PeripheralStorage; 0] = [];
+    let mut m = DpMaster::new(&mut storage[..]);
+    m.state.operating_state = OperatingState::Operate;
+    let mut buf = [0u8; 24];
+    let res = m.transmit_telegram(crate::time::Instant::ZERO, &fdl, TelegramTx::new(&mut buf), HighPrioOnly::Yes);
+    assert!(res.is_none());
 }
